@@ -81,6 +81,23 @@ theorem a_scrubber_that_fails_hands_back_no_data {D E : Type} (scrub : Mw.RMw D 
     (result : D) (ee : Option E) (e : E) (h : scrub.run result = .error e) :
     Mw.execute scrub user result ee = ([scrub.id], none, some e) := Mw.execute_scrubber_fails scrub user result ee e h
 
+/-- **planner and scrub table together**: take a plan of the planner model and the scrub table computed over a plan
+    tree that holds the planner's steps (every insertion point of a step of the plan is the insertion point of a
+    step of the tree — the tree is the `Then` nesting of those very steps).  Then wherever a step's query holds an
+    `id` the planner added, and the client's flattened selection has no `id` at that place, the place is listed for
+    scrubbing — so by `the_join_id_is_removed_where_listed` it is gone from the response; where the client did ask for
+    `id` it is not listed (`requested_id_kept`) and stays. -/
+theorem an_added_id_the_client_did_not_ask_for_is_listed {env : Pl.Env} {fuel : Nat} {operation : String}
+    {sels : List Pl.Sel} {steps : List Pl.Step} (hns : Pl.noSpreadL sels = true) (hu : Pl.unmarkedL sels = true)
+    (hplan : Pl.planOperation env fuel operation sels = .ok steps)
+    (clientSel : List S) (roots : List PStep) (ps : List (List String)) (hscrub : scrubPaths clientSel roots = some ps)
+    (htree : ∀ u ∈ steps, ∃ t ∈ allStepsL roots, t.ip = u.ip)
+    (t : Pl.Step) (ht : t ∈ steps) (p : List String) (hinj : Pl.InjectedAt t.sel p)
+    (hneeds : NeedsScrub clientSel (t.ip ++ p)) : (t.ip ++ p) ∈ ps := by
+  obtain ⟨u, hu', _, hip⟩ := Pl.planOperation_injected_ids_are_join_points hns hu hplan t ht p hinj
+  obtain ⟨t', ht', hip'⟩ := htree u hu'
+  exact ((scrubPaths_exact clientSel roots ps hscrub).2 (t.ip ++ p)).2 ⟨⟨t', ht', by rw [hip', hip]⟩, hneeds⟩
+
 /-- non-vacuity: `{ me { firstName lastName } }` with `lastName` served elsewhere — the client's selection is
     unmarked, the step for A gets `me { firstName id }` and the step for B is inserted at [me] (step 0 is the
     empty root step, which is never sent: its `id` stands for the root steps hanging off it at []) -/
